@@ -37,7 +37,8 @@ Probes == {Single("a", One), Single("b", One), Single("n", One), Single("u1", On
            Single("ku1", One), Single("ka", R(2)), Mul(Single("ku3", One), Single("u3", R(-1))),
            Mul(Single("a", One), Single("b", R(-1))), Mul(Single("u2", One), Single("b", One)),
            Mul(Single("u3", One), Single("u1", R(-1))), Mul(Single("u2", <<1, 2>>), Single("b", <<1, 2>>)),
-           Single("[C]", One), Single("[H]", R(2)), Empty}
+           Single("[C]", One), Single("[H]", R(2)), Single("[H]", One), Single("[C]", R(2)), Single("[C]", R(-1)),
+           Mul(Single("[H]", R(-2)), Single("[A]", One)), Mul(Single("[C]", One), Single("[B]", One)), Empty}
 UnitProbes == {p \in Probes : \A k \in DOMAIN p : ~IsDimName(k)}
 
 VARIABLES stage, rid, regv, p1, obs
